@@ -860,3 +860,16 @@ fire("C17", "normalisation flag not handed to the s primitives", "S2.superpositi
 silent("C17", "s primitives accumulated through an index loop",
        ("sub", "coulomb.py", "    for c, alpha, center in zip(coeffs_s, alphas_s, centers_s):\n        r = np.linalg.norm(points - center, axis=-1)\n        V += c * coulomb_gaussian_s(r, alpha, normalized=normalized)\n",
         "    for k in range(len(coeffs_s)):\n        r = np.linalg.norm(points - centers_s[k], axis=-1)\n        V = V + coeffs_s[k] * coulomb_gaussian_s(r, alphas_s[k], normalized=normalized)\n"))
+
+# ------------------------------------------------------------------------------------------ C07 R8, C05 R9, C06 order
+fire("C07", "boolean rotate translated into a seed by the molecular constructor", "R8.constructor-fan-out-evaluated/molgrid.MolGrid.from_size/rotate",
+     ("sub", "molgrid.py", "                AtomGrid(rad_grid, degrees=None, sizes=[size], center=atcoord, rotate=rotate)\n",
+      "                AtomGrid(rad_grid, degrees=None, sizes=[size], center=atcoord, rotate=37 if rotate is True else rotate)\n"))
+silent("C07", "from_size builds the atomic grids in a comprehension with a helper for the radial grid",
+       ("sub", "molgrid.py", "        atgrids = []\n        for atnum, atcoord in zip(atnums, atcoords):\n            if rgrid is None:\n                rad_grid = _generate_default_rgrid(atnum)\n            else:\n                rad_grid = rgrid\n            atgrids.append(\n                AtomGrid(rad_grid, degrees=None, sizes=[size], center=atcoord, rotate=rotate)\n            )\n",
+        "        atgrids = [\n            AtomGrid(_generate_default_rgrid(atnum) if rgrid is None else rgrid, degrees=None, sizes=[size], center=atcoord, rotate=rotate)\n            for atnum, atcoord in zip(atnums, atcoords)\n        ]\n"))
+fire("C05", "get_shell_grid rotates with the seed of the previous shell", "R9.shell-grid-evaluated/atomgrid.AtomGrid.get_shell_grid",
+     ("sub", "atomgrid.py", "            rot_mt = R.random(random_state=self.rotate + index).as_matrix()\n            pts = pts.dot(rot_mt)\n", "            rot_mt = R.random(random_state=self.rotate + index - 1).as_matrix()\n            pts = pts.dot(rot_mt)\n"))
+fire("C06", "per-atom route ignores the configured switching order", "R7.partition-of-unity/becke.BeckeWeights.compute_atom_weight",
+     ("sub", "becke.py", "        s_ab = 0.5 * (1 - BeckeWeights._switch_func(v_pp, order=self._order))\n        del v_pp\n        # convert nan to 1\n        s_ab[np.isnan(s_ab)] = 1\n        # product up A_B, A_C, A_D ... along rows\n        s_ab = np.prod(s_ab, axis=-1)\n        # calculate weight for each point in select\n        weights += s_ab[:, select]",
+      "        s_ab = 0.5 * (1 - BeckeWeights._switch_func(v_pp))\n        del v_pp\n        # convert nan to 1\n        s_ab[np.isnan(s_ab)] = 1\n        # product up A_B, A_C, A_D ... along rows\n        s_ab = np.prod(s_ab, axis=-1)\n        # calculate weight for each point in select\n        weights += s_ab[:, select]"))
